@@ -447,6 +447,8 @@ class Engine:
         i = z3.Const("oi", z3.IntSort())
         k = z3.Const("ok", ks)
         self.side_fact(size >= 0)
+        # ground instance at 0 (no term order[0] exists to trigger it): an empty key set has size 0
+        self.side_fact(z3.Implies(size > 0, z3.Select(h, z3.Select(order, 0))))
         self.side_fact(z3.ForAll([i], z3.Implies(z3.And(0 <= i, i < size),
                                                  z3.And(z3.Select(h, z3.Select(order, i)),
                                                         pf(h, z3.Select(order, i)) == i)),
@@ -645,6 +647,19 @@ class Engine:
         if k == "opaque":
             if v.ty.name in ("Event", "Exc", "Type", "Callable", "RetryPolicy", "datetime"):
                 return z3.BoolVal(True)
+            # an instance of a repository class that defines neither __bool__ nor __len__ (nor inherits one from a
+            # class we cannot see) is truthy; subclasses overriding truthiness are not considered (stated assumption)
+            ci = self.w.repo.find_class(v.ty.name, getattr(self.frames[-1], "module", None) if self.frames else None)
+            if ci is not None:
+                names, ok = self.w.repo.mro_names(ci), True
+                for n in names:
+                    c2 = self.w.repo.find_class(n, ci.module)
+                    if c2 is None:
+                        ok = ok and n in ("object", "ABC", "Protocol", "Generic", "BaseModel")
+                    elif "__bool__" in c2.methods or "__len__" in c2.methods:
+                        ok = False
+                if ok:
+                    return z3.BoolVal(True)
             f = self.w.func(f"truthy<{v.ty.name}>", self.w.sort(v.ty), z3.BoolSort())
             return f(v.term)
         raise Unsupported(f"truthiness of {v.ty}")
